@@ -111,6 +111,7 @@ def check_C03(ctx):
     spec_expr_model(ctx)
     shards, st = gen_asm(ctx, "asm", ["-shards", 16 if ctx.quick else 64, "-n", 3000 if ctx.quick else 60000, "-variants", 4 if ctx.quick else 8], "c03")
     rej, nom = validate_asm(ctx, shards, "C03")
+    ctx.binding_selftest("AsmTrace", shards, "C03")
     total = st["programs"] + st["table_cases"]
     ctx.cov["traces_validated_against_impl"] = total
     ctx.cov["evaluations"] = st["programs"] * st["variants"] + st["table_cases"] * 2
@@ -130,6 +131,7 @@ def check_C07(ctx):
     spec_expr_model(ctx)
     shards, st = gen_asm(ctx, "asm", ["-mode", "c07", "-shards", 16 if ctx.quick else 64, "-n", 6000 if ctx.quick else 150000, "-variants", 3 if ctx.quick else 4], "c07")
     rej, nom = validate_asm(ctx, shards, "C07")
+    ctx.binding_selftest("AsmTrace", shards, "C07")
     ctx.cov["traces_validated_against_impl"] = st["programs"]
     ctx.cov["evaluations"] = st["programs"] * st["variants"]
     ctx.cov["distinct_nontrivial"] = st["programs"]
@@ -146,6 +148,7 @@ def check_C06(ctx):
     ctx.cov["trusted_base"] = ["harness/enc.go tables", "TLC", "Json module"]
     shards, st = gen_asm(ctx, "outs", ["-shards", 16 if ctx.quick else 64, "-n", 20000 if ctx.quick else 400000], "c06")
     rej, _ = validate_asm(ctx, shards, "C06")
+    ctx.binding_selftest("AsmTrace", shards, "C06")
     ctx.cov["traces_validated_against_impl"] = st["inputs"]
     ctx.cov["evaluations"] = st["inputs"]
     ctx.cov["distinct_nontrivial"] = st["accepted"]
@@ -167,6 +170,7 @@ def check_C08(ctx):
     ctx.cov["trusted_base"] = ["harness renderer and manual unroller (forgen.go)", "TLC", "Json module"]
     shards, st = gen_asm(ctx, "forasm", ["-shards", 16 if ctx.quick else 64, "-n", 2500 if ctx.quick else 50000], "c08")
     rej, nom = validate_asm(ctx, shards, "C08")
+    ctx.binding_selftest("AsmTrace", shards, "C08")
     ctx.cov["traces_validated_against_impl"] = st["programs"]
     ctx.cov["evaluations"] = st["programs"] * 3
     ctx.cov["distinct_nontrivial"] = st["programs"] - nom
@@ -264,6 +268,7 @@ def check_C05(ctx):
     nts = count_lines(tsp + ".000.ndjson")
     ctx.notes["token_sequences_assembled"] = nts
     rej, _ = validate_asm(ctx, [egp + ".000.ndjson", fzp + ".000.ndjson", tsp + ".000.ndjson"], "C05")
+    ctx.binding_selftest("AsmTrace", [fzp + ".000.ndjson"], "C05")
     neg = count_lines(egp + ".000.ndjson")
     ctx.cov["traces_validated_against_impl"] = total_cases + neg + nf + nts
     ctx.cov["evaluations"] = total_cases + neg + nf + nts
@@ -349,6 +354,7 @@ def check_C09(ctx):
     ctx.cov["trusted_base"] = ["canonical printer and perturbations (harness/tools.go)", "harness/enc.go tables", "TLC"]
     shards, st = gen_asm(ctx, "loadrt", ["-shards", 16 if ctx.quick else 64, "-n", 3000 if ctx.quick else 60000], "c09")
     rej, nom = validate_asm(ctx, shards, "C09", module="ToolTrace")
+    ctx.binding_selftest("ToolTrace", shards, "C09")
     ctx.cov["traces_validated_against_impl"] = st["warriors"]
     ctx.cov["evaluations"] = st["texts"] * 2
     ctx.cov["distinct_nontrivial"] = st["texts"] // 2
@@ -367,6 +373,7 @@ def check_C10(ctx):
     ctx.cov["trusted_base"] = ["generic line tokenizer (harness/tools.go lineStructure)", "harness/enc.go tables", "TLC"]
     shards, st = gen_asm(ctx, "loadcorrupt", ["-shards", 16 if ctx.quick else 64, "-n", 4000 if ctx.quick else 100000], "c10")
     rej, _ = validate_asm(ctx, shards, "C10", module="ToolTrace")
+    ctx.binding_selftest("ToolTrace", shards, "C10")
     ctx.cov["traces_validated_against_impl"] = st["texts"]
     ctx.cov["evaluations"] = st["texts"]
     ctx.cov["distinct_nontrivial"] = st["accepted"]
@@ -385,6 +392,7 @@ def check_C16(ctx):
     ctx.notes["spec_model"] = "MC_Listing: %d states, RoundTrip holds" % r["distinct"]
     shards, st = gen_asm(ctx, "listing", ["-shards", 16 if ctx.quick else 64, "-n", 3000 if ctx.quick else 80000], "c16")
     rej, nom = validate_asm(ctx, shards, "C16", module="ToolTrace")
+    ctx.binding_selftest("ToolTrace", shards, "C16")
     ctx.cov["traces_validated_against_impl"] = st["warriors"]
     ctx.cov["evaluations"] = st["warriors"]
     ctx.cov["distinct_nontrivial"] = st["warriors"] - nom
@@ -422,6 +430,7 @@ def check_C17(ctx):
         args.append("-long")
     shards, st = gen_asm(ctx, "cli", args, "c17")
     rej, nom = validate_asm(ctx, shards, "C17", module="CliTrace", heap="6g")
+    ctx.binding_selftest("CliTrace", shards, "C17", heap="6g")
     ctx.cov["traces_validated_against_impl"] = st["invocations"]
     ctx.cov["evaluations"] = st["invocations"]
     ctx.cov["distinct_nontrivial"] = st["invocations"] - nom
